@@ -269,7 +269,7 @@ func Replay(spec *Spec, tier, path string) int {
 				continue
 			}
 			body, check := sc.H()
-			s := vrt.Run(vrt.Config{Prefix: rf.Choices, MapBranch: sc.Opt.MapBranch, TimerBudget: sc.Opt.TimerBudget,
+			s := vrt.Run(vrt.Config{Prefix: rf.Choices, MapBranch: sc.Opt.MapBranch, TimerBudget: sc.Opt.TimerBudget, GroupDepth: sc.Opt.GroupDepth,
 				StartBranch: sc.Opt.StartBranch, Trace: true, Horizon: sc.Opt.Horizon}, body)
 			v, _ := check(s)
 			for _, l := range s.Log {
